@@ -7,6 +7,7 @@ import (
 	"regexp"
 	"sort"
 	"strings"
+	"time"
 	"unicode"
 
 	"github.com/zmap/zlint/v3/lint"
@@ -19,10 +20,12 @@ type regView struct {
 	Kind    map[string]string   // via the three per-kind ByName lookups
 	Src     map[string]string   //
 	PerKind map[string][]string // Lints() order per kind
+	BySrc   map[string][]string // "kind|source" -> names in BySource order; "dep|source" -> the deprecated Registry.BySource
+	Sources []string            // Sources(), sorted
 }
 
 func viewOf(r lint.Registry) regView {
-	v := regView{Names: append([]string{}, r.Names()...), Kind: map[string]string{}, Src: map[string]string{}, PerKind: map[string][]string{}}
+	v := regView{Names: append([]string{}, r.Names()...), Kind: map[string]string{}, Src: map[string]string{}, PerKind: map[string][]string{}, BySrc: map[string][]string{}}
 	for _, k := range []string{"cert", "crl", "ocsp"} {
 		v.PerKind[k] = []string{}
 		for _, l := range lintsOf(r, k) {
@@ -31,7 +34,40 @@ func viewOf(r lint.Registry) regView {
 			v.Src[l.Name] = l.Source
 		}
 	}
+	for _, s := range r.Sources() {
+		v.Sources = append(v.Sources, string(s))
+		for _, k := range []string{"cert", "crl", "ocsp"} {
+			v.BySrc[k+"|"+string(s)] = bySourceNames(r, k, string(s))
+		}
+		dep := []string{}
+		for _, l := range r.BySource(s) {
+			if l != nil {
+				dep = append(dep, l.Name)
+			}
+		}
+		v.BySrc["dep|"+string(s)] = dep
+	}
+	sort.Strings(v.Sources)
 	return v
+}
+
+func bySourceNames(r lint.Registry, k, s string) []string {
+	ns := []string{}
+	switch k {
+	case "cert":
+		for _, l := range r.CertificateLints().BySource(lint.LintSource(s)) {
+			ns = append(ns, l.Name)
+		}
+	case "crl":
+		for _, l := range r.RevocationListLints().BySource(lint.LintSource(s)) {
+			ns = append(ns, l.Name)
+		}
+	default:
+		for _, l := range r.OcspResponseLints().BySource(lint.LintSource(s)) {
+			ns = append(ns, l.Name)
+		}
+	}
+	return ns
 }
 
 func rankMap(names []string) map[string]int {
@@ -56,62 +92,10 @@ func ranks(m map[string]int, names []string) []int {
 
 var padPool = []string{"", " ", "  ", "\t", "\n", " \t ", "\r\n"}
 
-// cmdRegistry: C12 (tables of the default build) and C08 (Filter over the full real registry).
-func cmdRegistry(args []string) {
-	parseFlags(args)
-	rng := rand.New(rand.NewSource(seed))
-	g := lint.GlobalRegistry()
+// tablesEvent: every lookup of a registry, as the public API shows it (names as ranks in the universe).
+func tablesEvent(g lint.Registry, universe []string, rk map[string]int, when string) ev.M {
 	v := viewOf(g)
-	// ranks over the union of everything any lookup shows (so that nothing can hide)
-	all := append([]string{}, v.Names...)
-	for _, k := range []string{"cert", "crl", "ocsp"} {
-		all = append(all, v.PerKind[k]...)
-	}
-	uniq := map[string]bool{}
-	var universe []string
-	for _, n := range all {
-		if !uniq[n] {
-			uniq[n] = true
-			universe = append(universe, n)
-		}
-	}
-	sort.Strings(universe)
-	rk := rankMap(universe)
-	kinds, srcs := make([]string, len(universe)), make([]string, len(universe))
-	for i, n := range universe {
-		kinds[i], srcs[i] = v.Kind[n], v.Src[n]
-	}
-	regEv := ev.M{"ev": "Reg", "names": universe, "kind": kinds, "src": srcs}
-
-	// ---- C12: registration replay + runtime tables
-	w := ev.Create(out("registry.ndjson"))
-	w.Emit(regEv)
-	for _, k := range []string{"cert", "crl", "ocsp"} {
-		for _, l := range lintsOf(g, k) {
-			var impl interface{}
-			switch k {
-			case "cert":
-				impl = l.C.Lint()
-			case "crl":
-				impl = l.R.Lint()
-			default:
-				impl = l.O.Lint()
-			}
-			name := l.Name
-			lower := name == strings.ToLower(name)
-			prefix := ""
-			if len(name) > 2 && name[1] == '_' {
-				prefix = name[:1]
-			}
-			blank := strings.IndexFunc(name, unicode.IsSpace) >= 0
-			w.Emit(ev.M{"ev": "Register", "rank": rk[name], "kind": k, "src": l.Source, "name": name,
-				"prefix": prefix, "lower": lower, "blank": blank, "hasDesc": l.Meta.Description != "",
-				"implNil": impl == nil || (reflect.ValueOf(impl).Kind() == reflect.Ptr && reflect.ValueOf(impl).IsNil()),
-				"eff":     ev.Inst(l.Meta.EffectiveDate), "ineff": ev.Inst(l.Meta.IneffectiveDate),
-				"implType": fmt.Sprintf("%T", impl)})
-		}
-	}
-	tables := ev.M{"ev": "Tables", "names": ranks(rk, v.Names)}
+	tables := ev.M{"ev": "Tables", "when": when, "names": ranks(rk, v.Names)}
 	srcList := []string{}
 	for _, s := range g.Sources() {
 		srcList = append(srcList, string(s))
@@ -179,7 +163,92 @@ func cmdRegistry(args []string) {
 	tables["kindNames"], tables["kindLints"], tables["kindSources"], tables["bySource"] = perKindNames, perKindLints, perKindSrc, bySrc
 	tables["byNameKinds"], tables["byNameMeta"] = byNameKinds, byNameMeta
 	// the sources every lookup of a kind knows, used as domain for the bySource comparison
-	w.Emit(tables)
+	dep := ev.M{}
+	for _, s := range srcList {
+		dep[s] = ranks(rk, v.BySrc["dep|"+s])
+	}
+	tables["depBySource"] = dep
+	depByName := true
+	for _, n := range v.PerKind["cert"] {
+		if l := g.ByName(n); l == nil || l.Name != n {
+			depByName = false
+		}
+	}
+	for _, k := range []string{"crl", "ocsp"} {
+		for _, n := range v.PerKind[k] {
+			if l := g.ByName(n); l != nil {
+				depByName = false // the deprecated lookup knows certificate lints only
+			}
+		}
+	}
+	tables["depByName"] = depByName
+	return tables
+}
+
+// cmdRegistry: C12 (tables of the default build) and C08 (Filter over the full real registry).
+func cmdRegistry(args []string) {
+	parseFlags(args)
+	rng := rand.New(rand.NewSource(seed))
+	g := lint.GlobalRegistry()
+	v := viewOf(g)
+	// ranks over the union of everything any lookup shows (so that nothing can hide)
+	all := append([]string{}, v.Names...)
+	for _, k := range []string{"cert", "crl", "ocsp"} {
+		all = append(all, v.PerKind[k]...)
+	}
+	uniq := map[string]bool{}
+	var universe []string
+	for _, n := range all {
+		if !uniq[n] {
+			uniq[n] = true
+			universe = append(universe, n)
+		}
+	}
+	// lints the driver registers late (after every lookup has been used and after the Filter calls below)
+	late := []mockSpec{{Name: "e_verif_zlate_cert", Kind: "cert", Source: lint.RFC5280}, {Name: "w_verif_alate_cert", Kind: "cert", Source: lint.CABFBaselineRequirements},
+		{Name: "e_verif_late_crl", Kind: "crl", Source: lint.RFC5280}, {Name: "e_verif_late_ocsp", Kind: "ocsp", Source: lint.RFC6960}, {Name: "n_verif_late_etsi", Kind: "cert", Source: lint.EtsiEsi}}
+	lateNames := []string{}
+	for _, m := range late {
+		universe = append(universe, m.Name)
+		lateNames = append(lateNames, m.Name)
+	}
+	sort.Strings(universe)
+	rk := rankMap(universe)
+	kinds, srcs := make([]string, len(universe)), make([]string, len(universe))
+	for i, n := range universe {
+		kinds[i], srcs[i] = v.Kind[n], v.Src[n]
+	}
+	regEv := ev.M{"ev": "Reg", "names": universe, "kind": kinds, "src": srcs, "late": lateNames}
+
+	// ---- C12: registration replay + runtime tables
+	w := ev.Create(out("registry.ndjson"))
+	w.Emit(regEv)
+	for _, k := range []string{"cert", "crl", "ocsp"} {
+		for _, l := range lintsOf(g, k) {
+			var impl interface{}
+			switch k {
+			case "cert":
+				impl = l.C.Lint()
+			case "crl":
+				impl = l.R.Lint()
+			default:
+				impl = l.O.Lint()
+			}
+			name := l.Name
+			lower := name == strings.ToLower(name)
+			prefix := ""
+			if len(name) > 2 && name[1] == '_' {
+				prefix = name[:1]
+			}
+			blank := strings.IndexFunc(name, unicode.IsSpace) >= 0
+			w.Emit(ev.M{"ev": "Register", "rank": rk[name], "kind": k, "src": l.Source, "name": name,
+				"prefix": prefix, "lower": lower, "blank": blank, "hasDesc": l.Meta.Description != "",
+				"implNil": impl == nil || (reflect.ValueOf(impl).Kind() == reflect.Ptr && reflect.ValueOf(impl).IsNil()),
+				"eff":     ev.Inst(l.Meta.EffectiveDate), "ineff": ev.Inst(l.Meta.IneffectiveDate),
+				"implType": fmt.Sprintf("%T", impl)})
+		}
+	}
+	w.Emit(tablesEvent(g, universe, rk, "default build"))
 	// duplicate registration through the public API must be refused (it panics)
 	dup := func(f func()) (panicked bool) {
 		defer func() {
@@ -199,7 +268,6 @@ func cmdRegistry(args []string) {
 	w.Emit(ev.M{"ev": "RegisterDup", "kind": "cert", "rank": 0, "refused": dup(func() {
 		lint.RegisterCertificateLint(&lint.CertificateLint{LintMetadata: lint.LintMetadata{Name: ""}, Lint: first.C.Lint})
 	})})
-	w.Close()
 
 	// ---- C08: Filter over the full real registry
 	wf := ev.Create(out("filter.ndjson"))
@@ -420,6 +488,20 @@ func cmdRegistry(args []string) {
 		cls[classes[i]]++
 	}
 	wf.Close()
+	// ---- C12 again: the lookups of the global registry after it has been filtered thousands of times, and after lints were
+	// registered late (every lookup, BySource included, had been used before): the tables must still be the model's
+	w.Emit(tablesEvent(g, universe, rk, "after the Filter calls"))
+	for _, ms := range late {
+		registerMock(ms)
+		w.Emit(ev.M{"ev": "Register", "rank": rk[ms.Name], "kind": ms.Kind, "src": string(ms.Source), "name": ms.Name, "prefix": ms.Name[:1], "lower": true, "blank": false,
+			"hasDesc": true, "implNil": false, "eff": ev.Inst(time.Time{}), "ineff": ev.Inst(time.Time{}), "implType": "mock"})
+		w.Emit(tablesEvent(g, universe, rk, "after registering "+ms.Name))
+	}
+	if f, err := g.Filter(lint.FilterOptions{ExcludeNames: []string{universe[0]}}); err == nil && f != nil {
+		_ = f.Names()
+		w.Emit(tablesEvent(g, universe, rk, "after an exclude-names filter"))
+	}
+	w.Close()
 	nontriv := 0
 	for k := range cls {
 		if strings.HasPrefix(k, "sel|") || strings.HasPrefix(k, "err:") {
